@@ -4,6 +4,9 @@ import SmVerif.Model.Lookup
 import SmVerif.Model.V3Spec
 import SmVerif.Model.Paths
 import SmVerif.Model.DrvRam
+import SmVerif.Model.DrvHermes
+import SmVerif.Model.DrvDetect
+import SmVerif.Model.DrvHeader
 import SmVerif.Model.DrvBld
 import SmVerif.Model.DrvRewrite
 import SmVerif.Model.DrvName
@@ -182,6 +185,9 @@ def handle (toks : List String) : String :=
     else if op.startsWith "name." then DrvName.handleName toks
     else if op.startsWith "rw." then DrvRewrite.handleRewrite toks
     else if op.startsWith "bld." || op.startsWith "smap." then DrvBld.handleBld toks
+    else if op.startsWith "hdr." then DrvHeader.handleHdr toks
+    else if op.startsWith "det." then DrvDetect.handleDet toks
+    else if op.startsWith "hermes." then DrvHermes.handleHermes toks
     else if op.startsWith "bytes." then "*\tsafe\t1"
     else handleMisc toks
 
